@@ -382,11 +382,13 @@ ATTR_SCEN = ["plan", "s1", "s2", "s3"]
 ATTR_TASKS = ["c", "c.d", "c.d.x", "c.y"]
 
 
-def attr_text(decls, reverse):
-    """The project of one element of the Attr universe; `reverse` writes the lines of every task in the opposite order."""
+def attr_text(decls, reverse, attr="effort"):
+    """The project of one element of the Attr universe; `reverse` writes the lines of every task in the opposite order.
+    attr = "start": the values 2 / 4 / 6 are days after the project start."""
     lines = {n: [] for n in (1, 2, 3, 4)}
     for n, w, v in sorted(decls):
-        lines[n].append("effort %dh" % v if w < 0 else "%s:effort %dh" % (ATTR_SCEN[w], v))
+        val = "effort %dh" % v if attr == "effort" else "start 2025-01-%02d-09:00" % (6 + v)
+        lines[n].append(val if w < 0 else "%s:%s" % (ATTR_SCEN[w], val))
     if reverse:
         for n in lines:
             lines[n].reverse()
@@ -394,8 +396,9 @@ def attr_text(decls, reverse):
          '    scenario s3 "s3"', "  }", "}", 'resource r "r" {', "}", 'task c "c" {']
     L += ["  " + x for x in lines[1]]
     L += ['  task d "d" {'] + ["    " + x for x in lines[2]]
-    L += ['    task x "x" {', "      allocate r"] + ["      " + x for x in lines[3]] + ["    }", "  }"]
-    L += ['  task y "y" {', "    allocate r"] + ["    " + x for x in lines[4]] + ["  }", "}"]
+    base = ["allocate r"] + (["effort 3h"] if attr != "effort" else [])
+    L += ['    task x "x" {'] + ["      " + x for x in base + lines[3]] + ["    }", "  }"]
+    L += ['  task y "y" {'] + ["    " + x for x in base + lines[4]] + ["  }", "}"]
     return "\n".join(L) + "\n"
 
 
@@ -419,7 +422,10 @@ def attr_universe(run, scr, tier):
         for rev in (False, True):
             if rev and len(e["decls"]) < 2:
                 continue
-            jobs.append({"id": "attr%05d%s" % (i, "r" if rev else ""), "text": attr_text(e["decls"], rev), "elem": i})
+            jobs.append({"id": "attr%05d%s" % (i, "r" if rev else ""), "text": attr_text(e["decls"], rev), "elem": i, "attr": "effort"})
+            if len(e["decls"]) <= 2:
+                # the same universe for 'start' (a date; the value a leaf inherits from its container is a bound, D-start)
+                jobs.append({"id": "attrS%05d%s" % (i, "r" if rev else ""), "text": attr_text(e["decls"], rev, "start"), "elem": i, "attr": "start"})
     wd = tempfile.mkdtemp(prefix="spattr_")
     try:
         nproc = 14
@@ -431,7 +437,7 @@ def attr_universe(run, scr, tier):
             inp, outp = os.path.join(wd, "in%d" % k), os.path.join(wd, "out%d" % k)
             with open(inp, "w") as f:
                 for j in chunks[k]:
-                    f.write(json.dumps({"id": j["id"], "text": j["text"]}) + "\n")
+                    f.write(json.dumps({"id": j["id"], "text": j["text"], "attr": j["attr"]}) + "\n")
             r = subprocess.run([PY, "-m", "harness.attrrun", inp, outp], env=env_for(scr, hooks=False), cwd=wd,
                                stdout=subprocess.PIPE, stderr=subprocess.PIPE, text=True, timeout=3000)
             if r.returncode != 0:
@@ -452,6 +458,8 @@ def attr_universe(run, scr, tier):
         if o is None or "error" in o:
             raise MachineryError("Attr universe: project not accepted: %s\n%s" % (j["text"], (o or {}).get("error")))
         exp = {ATTR_TASKS[n]: [float(e["eff"][n][str(s)]) for s in range(4)] for n in range(4)}
+        if j["attr"] == "start":
+            exp = {k: [(x * 86400 + 9 * 3600 if x else 0.0) for x in row] for k, row in exp.items()}      # seconds after the project start
         got = {k: o["eff"].get(k) for k in ATTR_TASKS}
         if o["scen"] != ATTR_SCEN:
             raise MachineryError("Attr universe: scenario order %s" % o["scen"])
